@@ -23,11 +23,54 @@ const NEAR_TERMINAL: &[&str] = &[
     "r3k1nr/pppppppp/8/8/8/8/PPPPPPPP/RN2K2R w kq - 0 1", "1n2k2r/8/8/8/8/8/8/RN2K3 w Qk - 0 1", "rnbqkbnr/pppppppp/8/8/8/8/PPPPPPPP/RNBQKBNR w KQq - 0 1",
 ];
 
+/// Scripted histories (operation tokens as in the stream: m<src>/<dst>/<promo>, ow ob, a, rw rb, d):
+/// * a checkmate / a stalemate delivered by the 100th reversible half-move, then claims;
+/// * the start position recurring only at half-moves 0, 32 and 64 (occurrences far apart), claim,
+///   then moves / offers after the declared draw;
+/// * the same with Black's rights changed in between (no repetition although the placement repeats).
+fn scripts() -> Vec<(&'static str, String)> {
+    let mut v: Vec<(&'static str, String)> = Vec::new();
+    // K+R v K, Black to move: (Kb8 Rh2 Ka8 Rh1) x 24, Kb8 Rh2 Ka8, then Rh8# as the 100th half-move
+    let mut s = String::new();
+    for _ in 0..24 { s.push_str("m56/57/0 m7/15/0 m57/56/0 m15/7/0 "); }
+    s.push_str("m56/57/0 m7/15/0 m57/56/0 ");
+    v.push(("k7/8/1K6/8/8/8/8/7R b - - 0 1", format!("{}m15/63/0 d d ow a m56/57/0", s)));
+    // the same with a harmless 100th half-move: the claim must succeed
+    v.push(("k7/8/1K6/8/8/8/8/7R b - - 0 1", format!("{}m15/14/0 d d", s)));
+    // K+Q v K: stalemate by the 100th half-move (Qg6 with Kh8, Kf7): shuffle Qg1-g2, Kh8-g8? keep it simple:
+    // king walks a8-b8 while the queen shuffles c1-c2; the 100th half-move Qc7 stalemates Ka8 (Kb6 guards)
+    let mut q = String::new();
+    for _ in 0..24 { q.push_str("m56/57/0 m2/10/0 m57/56/0 m10/2/0 "); }
+    q.push_str("m56/57/0 m2/10/0 m57/56/0 ");
+    v.push(("k7/8/1K6/8/8/8/8/2Q5 b - - 0 1", format!("{}m10/50/0 d d", q)));
+    // start position: White Nb1-c3, (c3-e4, e4-c3) x 7, c3-b1; Black (g8-f6, f6-g8) x 8; twice
+    let mut w: Vec<String> = vec!["m1/18/0".to_string()];
+    for _ in 0..7 { w.push("m18/28/0".to_string()); w.push("m28/18/0".to_string()); }
+    w.push("m18/1/0".to_string());
+    let mut b: Vec<String> = Vec::new();
+    for _ in 0..8 { b.push("m62/45/0".to_string()); b.push("m45/62/0".to_string()); }
+    let mut round = String::new();
+    for i in 0..16 { round.push_str(&w[i]); round.push(' '); round.push_str(&b[i]); round.push(' '); }
+    v.push(("rnbqkbnr/pppppppp/8/8/8/8/PPPPPPPP/RNBQKBNR w KQkq - 0 1", format!("{}{}d m12/28/0 ow a d rb", round, round)));
+    // the claim refused one half-move earlier (only two occurrences of the position then on the board)
+    v.push(("rnbqkbnr/pppppppp/8/8/8/8/PPPPPPPP/RNBQKBNR w KQkq - 0 1", format!("{}d {}d d", round, round)));
+    v
+}
+
 pub fn run(n: u64, mode: &str) {
     let mut rng = Rng::new(seed_from_env());
     let out = std::io::stdout(); let mut out = std::io::BufWriter::new(out.lock());
     let mut starts: Vec<Board> = NEAR_TERMINAL.iter().filter_map(|f| Board::from_str(f).ok()).collect();
     if mode != "draw" { starts.extend(roots()); }
+    // scripted games first (shard 0): histories that random play practically never produces
+    if shard() == 0 {
+        for (fen, ops) in scripts() {
+            if let Ok(b) = Board::from_str(fen) {
+                let toks: Vec<&str> = ops.split_whitespace().collect();
+                writeln!(out, "{}", crate::replay::game_line(b, &toks)).unwrap();
+            }
+        }
+    }
     for gi in 0..n {
         let gidx = (gi as usize) * nshards() + shard();
         let start = if gidx < starts.len() { starts[gidx] } else { *rng.pick(&starts) };
